@@ -601,6 +601,91 @@ fn shrink_cli(scratch: &str, case: &CliCase, seed: u64) -> Violation {
     best
 }
 
+// ------------------------------------------------------------------ CLI tree cases (seq / conv / run on a project directory)
+
+/// the same command on the same project directory, executed in fresh processes under
+/// different hash keys and directory orders: stdout, exit status and every file must agree
+#[derive(Serialize, Deserialize, Clone, Debug)]
+pub struct TreeCase {
+    pub files: BTreeMap<String, String>,
+    pub dirs: Vec<String>,
+    pub cwd: String,
+    pub argv: Vec<String>,
+    pub stdin: String,
+    /// (DETRAND_SEED, SIM_DIRSEED) per instance
+    pub keys: Vec<(u64, u64)>,
+}
+
+fn run_tree_case(scratch: &str, tag: &str, case: &TreeCase) -> Vec<String> {
+    let mut outs = Vec::new();
+    for (k, &(detrand, dirseed)) in case.keys.iter().enumerate() {
+        let root = format!("{scratch}/tree-{tag}-{k}");
+        crate::cli::write_tree(&root, &case.files, &case.dirs);
+        let o = crate::cli::exec(&root, &case.cwd, &case.argv, &case.stdin, detrand, dirseed, &vec![]);
+        if o.out.timed_out {
+            outs.push("<hang>".to_string());
+        } else {
+            let snap = crate::cli::snapshot(&root);
+            let mut f = Fnv::new();
+            let mut listing = String::new();
+            for (p, c) in &snap {
+                f.str(p);
+                if let Some(b) = c {
+                    f.bytes(b);
+                }
+                listing.push_str(&format!("{p} {}\n", c.as_ref().map(|b| b.len() as i64).unwrap_or(-1)));
+            }
+            outs.push(format!("exit={:?} signal={:?}\n--- stdout\n{}--- files (digest {:016x})\n{}", o.out.code, o.out.signal, o.out.stdout, f.0, listing));
+        }
+        let _ = std::fs::remove_dir_all(&root);
+    }
+    outs
+}
+
+fn tree_violation(case: &TreeCase, outs: &[String], seed: u64) -> Option<Violation> {
+    if outs.iter().any(|o| o == "<hang>") {
+        return None;
+    }
+    let first = &outs[0];
+    let j = outs.iter().position(|o| o != first)?;
+    let mut small = case.clone();
+    small.keys = vec![case.keys[0], case.keys[j]];
+    let shape: Vec<String> = case.argv.iter().filter(|a| a.starts_with('-') || ["run", "seq", "conv", "asca", "json", "tag"].contains(&a.as_str())).cloned().collect();
+    let detail = format!(
+        "clause cli-output: `asca {}` (cwd {:?}) on the same project directory\n  DETRAND_SEED={} SIM_DIRSEED={} ->\n{}\n  DETRAND_SEED={} SIM_DIRSEED={} ->\n{}",
+        case.argv.join(" "), case.cwd, case.keys[0].0, case.keys[0].1, first, case.keys[j].0, case.keys[j].1, outs[j]
+    );
+    let replay = json!({
+        "property": "C01", "engine": "c01", "kind": "cli-tree", "verif_seed": seed, "clause": "cli-output",
+        "case": small,
+        "observed": {"a": first, "b": outs[j]},
+        "expected": "stdout, exit status and every file written by the same command on the same files are identical in every process",
+    });
+    Some(Violation { property: "C01".into(), clause: "cli-output".into(), signature: shape.join("_"), detail, replay })
+}
+
+fn gen_tree_case(d: &Data, seed: u64, i: usize, nkeys: usize) -> TreeCase {
+    let mut r = Rng::derive(seed, prng::D_GEN, 800_000 + i as u64);
+    let mut ks = Rng::derive(seed, prng::D_KEYS, 800_000 + i as u64);
+    let keys = (0..nkeys).map(|_| (ks.next_u64() | 1, ks.next_u64() | 1)).collect();
+    if i % 2 == 0 {
+        // a seq project: all tags at once is where per-tag state is iterated
+        let scn = crate::c20gen::gen_scn(d, &mut r, false, None);
+        let argv: Vec<String> = match r.below(5) {
+            0 => vec!["seq".into()],
+            1 => vec!["seq".into(), "-a".into()],
+            2 => vec!["seq".into(), "-o".into(), "-y".into()],
+            3 => vec!["seq".into(), "-o".into(), "-y".into(), "-i".into()],
+            _ => scn.invs[0].cmd.argv(),
+        };
+        TreeCase { files: scn.files, dirs: scn.dirs, cwd: crate::c20gen::PROJ.to_string(), argv, stdin: "n\nn\nn\nn\n".into(), keys }
+    } else {
+        let scn = crate::c19gen::gen_scn(d, &mut r, false);
+        let inv = &scn.invs[0];
+        TreeCase { files: scn.files, dirs: scn.dirs, cwd: inv.cwd.clone(), argv: inv.cmd.argv(), stdin: crate::cli::stdin_script(&inv.answers), keys }
+    }
+}
+
 // ------------------------------------------------------------------ building the big scenario
 
 pub struct Tier {
@@ -612,13 +697,14 @@ pub struct Tier {
     pub n_cli: usize,
     pub cli_keys: usize,
     pub blocks: usize,
+    pub n_tree: usize,
 }
 
 pub fn tier(name: &str) -> Tier {
     match name {
-        "thorough" => Tier { name: "thorough", k_instances: 16, sweep_instances: 64, n_gen: 12_000, n_corpus: 8_000, n_cli: 1200, cli_keys: 4, blocks: 16 },
-        "mini" => Tier { name: "quick", k_instances: 5, sweep_instances: 0, n_gen: 300, n_corpus: 200, n_cli: 20, cli_keys: 2, blocks: 1 },
-        _ => Tier { name: "quick", k_instances: 24, sweep_instances: 8, n_gen: 2_500, n_corpus: 1_500, n_cli: 150, cli_keys: 3, blocks: 1 },
+        "thorough" => Tier { name: "thorough", k_instances: 16, sweep_instances: 64, n_gen: 12_000, n_corpus: 8_000, n_cli: 1200, cli_keys: 4, blocks: 16, n_tree: 3000 },
+        "mini" => Tier { name: "quick", k_instances: 5, sweep_instances: 0, n_gen: 300, n_corpus: 200, n_cli: 20, cli_keys: 2, blocks: 1, n_tree: 20 },
+        _ => Tier { name: "quick", k_instances: 24, sweep_instances: 8, n_gen: 2_500, n_corpus: 1_500, n_cli: 150, cli_keys: 3, blocks: 1, n_tree: 300 },
     }
 }
 
@@ -852,6 +938,33 @@ pub fn main_c01(tier_name: &str, seed: u64) -> i32 {
             }
         }
     }
+    // ---- CLI tree cases: seq / conv / run on a project directory across key sets and directory orders
+    {
+        let cases: Vec<TreeCase> = (0..tr.n_tree).map(|i| gen_tree_case(&d, seed, i, tr.cli_keys)).collect();
+        let outs = par_map(cases.len(), workers, |i| run_tree_case(&scratch.path, &format!("{i}"), &cases[i]));
+        let mut first = true;
+        for (i, o) in outs.iter().enumerate() {
+            cli_runs += o.len() as u64;
+            for k in &cases[i].keys {
+                keysets.insert(k.0);
+            }
+            for s in o {
+                log_digest.str(s);
+            }
+            if o.iter().any(|x| x.contains("OUTPUT - ")) {
+                *probes.entry("cli_seq_runs_with_output_blocks").or_default() += 1;
+            }
+            if let Some(v) = tree_violation(&cases[i], o, seed) {
+                if first {
+                    first = false;
+                    violations.push(v);
+                }
+            }
+        }
+        if let (Some(c), Some(o)) = (cases.first(), outs.first()) {
+            samples.push(json!({"cli_tree_case": {"argv": c.argv, "cwd": c.cwd, "files": c.files.keys().collect::<Vec<_>>()}, "observed_under_first_key_set": o[0]}));
+        }
+    }
     executions += cli_runs;
 
     // ---- probes that must be non-zero
@@ -922,6 +1035,21 @@ pub fn replay(doc: &Value, path: &str) -> i32 {
     let scratch = Scratch::new("c01r");
     let clause = doc.get("clause").and_then(|v| v.as_str()).unwrap_or("").to_string();
     let seed = doc.get("verif_seed").and_then(|v| v.as_u64()).unwrap_or(0);
+    if doc.get("kind").and_then(|v| v.as_str()) == Some("cli-tree") {
+        let case: TreeCase = serde_json::from_value(doc["case"].clone()).unwrap_or_else(|e| harness_error(&format!("bad replay: {e}")));
+        let outs = run_tree_case(&scratch.path, "replay", &case);
+        return match tree_violation(&case, &outs, seed) {
+            Some(v) => {
+                println!("{}", v.detail);
+                println!("VIOLATION property=C01 replay={path}");
+                1
+            }
+            None => {
+                println!("replay: not reproduced (all instances agree)");
+                0
+            }
+        };
+    }
     if doc.get("kind").and_then(|v| v.as_str()) == Some("cli") {
         let case: CliCase = serde_json::from_value(doc["case"].clone()).unwrap_or_else(|e| harness_error(&format!("bad replay: {e}")));
         let outs = run_cli_case(&scratch.path, "replay", &case);
